@@ -13,17 +13,17 @@ RULE = ('close: bidirectional exchanges under seeded random schedules (5 chunk p
         'carry renegotiation_info equal to the previous Finished values as decoded from the wire, keys change, streams exact before/after, three in '
         'a row), with BR_OPT_NO_RENEGOTIATION on the other side (no_renegotiation warning on the wire, no key change), documented refusals of '
         'br_ssl_engine_renegotiate, with application data in flight, and with a rogue peer whose saved Finished values differ in one bit at each of the 24 positions on either side (must be refused, never re-keyed). decline: a scripted peer (records forged with the real keys) sends HelloRequest / a renegotiation ClientHello to an endpoint with BR_OPT_NO_RENEGOTIATION: exactly one no_renegotiation warning, connection stays open, following data delivered in order. sslio: the client is driven through br_sslio_* with callbacks that pump '
-        'the server; orderly close returns 1 with error 0, a transport cut gives a non-zero error. sslio2: either role under br_sslio_* (the peer is a plain engine pumped from inside the callbacks), every layout pair, callbacks doing short reads/writes of any size, the n-th read or write callback failing hard, read/read_all/write/write_all/flush/close mixed, close while the peer still sends: bytes read are the peer stream in order, everything written and flushed reaches the peer application exactly, an injected transport failure is reported (-1, non-zero last_error), sticky, and the transport is never touched again. reuse: one client or server context reset for three connections, the earlier ones ending in each of ten ways (closed by either side, fatal alert, a lone alert level byte, cut in mid-record, bad MAC, refused in the handshake, closure never answered, abandoned in mid-handshake or mid-renegotiation): the next connection completes its handshake, delivers exact streams and closes in order with one close_notify per side, error 0. distinct = configuration tuples per mode + schedules.')
+        'the server; orderly close returns 1 with error 0, a transport cut gives a non-zero error. sslio2: either role under br_sslio_* (the peer is a plain engine pumped from inside the callbacks), every layout pair, callbacks doing short reads/writes of any size, the n-th read or write callback failing hard, read/read_all/write/write_all/flush/close mixed, close while the peer still sends: bytes read are the peer stream in order, everything written and flushed reaches the peer application exactly, an injected transport failure is reported (-1, non-zero last_error), sticky, and the transport is never touched again. reuse: one client or server context reset for three connections, the earlier ones ending in each of ten ways (closed by either side, fatal alert, a lone alert level byte, cut in mid-record, bad MAC, refused in the handshake, closure never answered, abandoned in mid-handshake or mid-renegotiation): the next connection completes its handshake, delivers exact streams and closes in order with one close_notify per side, error 0. roguehello: a scripted peer holding the connection keys sends a renegotiation hello (ClientHello to a server, ServerHello to a client that has just asked) whose renegotiation_info is absent, empty, altered in one bit, one byte too long, or whose extension block is missing: the victim fails, never answers (server) and never changes keys; the right value is taken (control). distinct = configuration tuples per mode + schedules.')
 ASSUMPTIONS = [
     'peers without RFC 5746 support cannot be produced by the stacks on this image; that sub-clause is not explored',
     'after a declined renegotiation the requester may stop with BR_ERR_RECV_FATAL_ALERT+100; streams must never be corrupted',
     'a no_renegotiation warning received outside a renegotiation is executed but not judged',
 ]
 EVAL = ['cases', 'cut_points', 'alerts_injected', 'prealert_runs']
-DISTINCT = ['reuse_after', 'close_cfg', 'cut_cfg', 'alert_cfg', 'reneg_cfg', 'sslio_cfg', 'decline_cfg', 'prealert_cfg', 'sslio2_cfg', 'schedule']
+DISTINCT = ['rogue_hello_cfg', 'reuse_after', 'close_cfg', 'cut_cfg', 'alert_cfg', 'reneg_cfg', 'sslio_cfg', 'decline_cfg', 'prealert_cfg', 'sslio2_cfg', 'schedule']
 REQUIRED = ['close_ok', 'cut_points', 'fatal_alerts_reported', 'warnings_ignored_stream_intact', 'renegotiations_completed',
             'renegotiation_info_verified', 'reneg_declined_cases', 'reneg_refusals_checked', 'sslio_cut_cases', 'sslio_close_calls', 'decline_ok', 'reneg_rogue_refused', 'prealert_cuts_agree', 'sslio2_streams_exact', 'sslio2_injected_failures_reported', 'sslio2_read_all_calls',
-            'reuse_clean_connections', 'reuse_abnormal_ends']
+            'reuse_clean_connections', 'reuse_abnormal_ends', 'rogue_hello_refused', 'rogue_hello_controls_ok']
 NW = 8
 
 
@@ -31,7 +31,7 @@ def jobs(tier, seed):
     q = tier == 'quick'
     plan = [('close', 1600 if q else 60000, 1), ('cut', 48 if q else 480, 1), ('alert', 32 if q else 96, 16 if q else 1),
             ('reneg', 1344 if q else 20160, 1), ('sslio', 192 if q else 4800, 1),
-            ('decline', 192 if q else 4800, 1), ('prealert', 72, 1), ('sslio2', 480 if q else 9600, 1), ('reuse', 480 if q else 4800, 1)]
+            ('decline', 192 if q else 4800, 1), ('prealert', 72, 1), ('sslio2', 480 if q else 9600, 1), ('reuse', 480 if q else 4800, 1), ('roguehello', 576 if q else 5760, 1)]
     js = []
     for mode, n, stride in plan:
         for i in range(NW):
